@@ -48,6 +48,7 @@ def _to_f64(bv):
 
 
 class FInt:
+    __class__ = property(lambda self: int)  # C-level isinstance() / `match` class patterns see the represented type
     __slots__ = ("e",)
 
     def __init__(self, e):
@@ -135,6 +136,7 @@ class FInt:
 
 
 class FFloat:
+    __class__ = property(lambda self: float)  # C-level isinstance() / `match` class patterns see the represented type
     __slots__ = ("e",)
     _is_float_proxy = True
 
